@@ -157,11 +157,20 @@ func (g *GoBackNConn) Send(data []byte) error {
 	ticker := time.NewTimer(g.timeoutManager.GetSendTimeout())
 	defer ticker.Stop()
 
-	sendPacket := func(packet *PacketData) error {
+	// The send timeout only applies until the first packet of the message
+	// has been accepted. Giving up after that would leave the peer with a
+	// truncated message that gets merged with whatever is sent next, so
+	// once a message has been started its remaining chunks must follow.
+	sendPacket := func(packet *PacketData, withTimeout bool) error {
+		var timeout <-chan time.Time
+		if withTimeout {
+			timeout = ticker.C
+		}
+
 		select {
 		case g.sendDataChan <- packet:
 			return nil
-		case <-ticker.C:
+		case <-timeout:
 			return errSendTimeout
 		case <-g.quit:
 			return fmt.Errorf("cannot send, gbn exited")
@@ -174,7 +183,7 @@ func (g *GoBackNConn) Send(data []byte) error {
 		return sendPacket(&PacketData{
 			Payload:    data,
 			FinalChunk: true,
-		})
+		}, true)
 	}
 
 	// Splitting is enabled. Split into packets no larger than maxChunkSize.
@@ -195,7 +204,8 @@ func (g *GoBackNConn) Send(data []byte) error {
 			sentBytes += maxChunk
 		}
 
-		if err := sendPacket(packet); err != nil {
+		firstChunk := sentBytes == len(packet.Payload)
+		if err := sendPacket(packet, firstChunk); err != nil {
 			return err
 		}
 	}
